@@ -2,7 +2,7 @@
 from vlib import Rng
 
 RULE = ("family lifed: the real Server wiring over SimTcp in life mode (close completes when written bytes are flushed), explicit event-loop "
-        "turns; handler kinds default-404 / FilesystemHandler streaming 0..300000 bytes / slot waiting for its body / passive; operation "
+        "turns; handler kinds default-404 / FilesystemHandler streaming 0..300000 bytes / slot waiting for its body / passive / adopting (re-parents the socket as ProxyHandler does); operation "
         "schedules over 1..3 simultaneous connections: request bytes in pieces cut at every offset class, flushes, peer resets, application "
         "closes, server destruction, turns; every schedule ends with reset + turns + destruction + turns.  family life: a real listening "
         "Server on the loopback interface with real TCP clients (all four kinds incl. ProxyHandler); non-trivial = distinct case")
@@ -12,7 +12,8 @@ TRUSTED = ["live QIODeviceCopier objects are counted by the guarded hook qhttpen
 REQ = {0: (b"GET /x HTTP/1.1\r\nHost: h\r\n\r\n", 0),
        1: (b"GET /big.bin HTTP/1.1\r\nHost: h\r\n\r\n", 0),
        2: (b"POST /slot HTTP/1.1\r\nContent-Length: 10\r\n\r\n0123456789", 10),
-       3: (b"GET /keep HTTP/1.1\r\n\r\n", 0)}
+       3: (b"GET /keep HTTP/1.1\r\n\r\n", 0),
+       4: (b"GET /adopt HTTP/1.1\r\n\r\n", 0)}
 FSIZES = [0, 1, 65536, 65537, 131072, 200000, 300000]
 T = [3]
 
@@ -66,14 +67,14 @@ def cases(tier, seed, ctx=None):
     rng = Rng(seed)
     n = 400 if tier == "quick" else 6000
     for j in range(n):
-        kind = rng.choice([0, 1, 1, 1, 2, 2, 3])
+        kind = rng.choice([0, 1, 1, 1, 2, 2, 3, 4, 4])
         yield ("lifed", schedule(rng, kind, rng.choice([1, 1, 2, 3])), "k%d" % kind)
     # systematic: one connection, request cut after every byte offset, then each way of ending it
-    for kind in range(4):
+    for kind in range(5):
         req, clen = REQ[kind]
         offs = range(0, len(req) + 1) if tier != "quick" else sorted(set([0, 1, len(req) - clen - 1, len(req) - clen, len(req) - 1, len(req)]))
         for cut in offs:
-            for end in ([[2, 0]], [[5, 0]], [[4]], [[5, 0], [1, 0]], [T, [2, 0]], [T, T, [4]], [[1, 0], T, [2, 0]]):
+            for end in ([[2, 0]], [[5, 0]], [[4]], [[5, 0], [1, 0]], [T, [2, 0]], [T, T, [4]], [[1, 0], T, [2, 0]], [[4], T, [2, 0]], [[4], [5, 0]]):
                 ops = [[6]] + ([[0, 0, cut]] if cut else []) + end + [T, T, [2, 0], T, T, [4], T, T]
                 yield ("lifed", [kind, 200000 if kind == 1 else 0, req, clen, ops], "cut")
 
